@@ -165,7 +165,7 @@ func closureFor(t reflect.Type, id int) reflect.Value {
 			return nil
 		}))
 	case "stackage.Unmarshaler":
-		return reflect.ValueOf(stackage.Unmarshaler(func(...any) ([]any, error) { return []any{"U", id}, nil }))
+		return reflect.ValueOf(unmarshalerFor(id)) // val.go: ["U", id]; id 3 also returns an error
 	case "stackage.LessFunc":
 		return reflect.ValueOf(stackage.LessFunc(func(i, j int) bool { return i < j }))
 	case "stackage.Evaluator":
